@@ -226,10 +226,10 @@ def explore(fn, maxpaths=2000, setup=None, maxdepth=None):
 
 # --------------------------------------------------------------------------- scalar
 class R:
-    __slots__ = ("coef", "f", "lin", "rad", "_abs")
+    __slots__ = ("coef", "f", "lin", "rad", "_abs", "pre")
 
     def __init__(self, coef, f, lin=None):
-        self.coef, self.f, self.lin, self.rad = coef, f, lin, None
+        self.coef, self.f, self.lin, self.rad, self.pre = coef, f, lin, None, None
 
     # ---- construction
     @staticmethod
@@ -496,6 +496,7 @@ class R:
                 raise NotImplementedError("angle % odd multiple of pi")
             r = R.of(CTX.fresh("mod"))
             r.lin = s.lin
+            r.pre = s
             m = o.term()
             CTX.cons += [r.n >= 0, r.n < m]
             return r
@@ -822,7 +823,7 @@ def real_mod(s, o):
     # s = o*k + r  <=>  sn*od = sd*(on*k + r*od)
     CTX.cons += [sn * od == sd * (on * z3.ToReal(k) + r * od), r >= 0, r * od < on]
     res = R.of(r)
-    res._abs = None
+    res.pre = s          # value before the reduction (harnesses compare pre-mod values exactly)
     return res
 
 
